@@ -448,11 +448,22 @@ def run_job(job):
             cls = getattr(mod, parts[0])
             if job.get('self_runtime_class'):
                 cls = rt.lookup(job['self_runtime_class'])
+            try:
+                if isinstance(inspect.getattr_static(cls, parts[1]), classmethod):
+                    # classmethod under contract: run it on a throw-away subclass so that stubbed `cls.<method>`
+                    # calls of the script can be installed as class attributes without touching the real class
+                    sub = type(cls.__name__, (cls,), {})
+                    cls, rt.cls_sub = sub, sub
+            except Exception:       # no such attribute / class cannot be subclassed: run on the class itself
+                pass
             obj = object.__new__(cls)
             rt.self_obj = obj
         elif o.get('real'):
-            rcls = getattr(importlib.import_module('asyncssh.' + o['real'][0]), o['real'][1])
-            obj = object.__new__(rcls)
+            try:
+                rcls = getattr(importlib.import_module('asyncssh.' + o['real'][0]), o['real'][1])
+                obj = object.__new__(rcls)
+            except AttributeError:      # constructed through a local alias (e.g. `cls(...)`): built by the real code
+                obj = Mock(o['addr'], o['cls'])
         elif o.get('isa'):
             obj = mock_isa(o['addr'], o['cls'], o['isa'], mod)
         else:
@@ -484,6 +495,8 @@ def run_job(job):
                     pass
             elif tgt is rt.self_obj:
                 object.__setattr__(tgt, name, StubFn(rt, ent['recv_addr'], name))
+                if getattr(rt, 'cls_sub', None) is not None:
+                    setattr(rt.cls_sub, name, StubFn(rt, ent['recv_addr'], name))
         else:
             key = ent['key']
             stub = StubFn(rt, None, key, free_key=key)
